@@ -11,6 +11,14 @@ over pipelines built from the deterministic flux-integrating models named by the
   start scaled too, every interval x k with the start kept, all times shifted) -- i.e. each frame's
   charge is proportional to its own duration and scaling the intervals scales the charge.
 
+Histories: the statement lets the charge depend on the start and end times *only*, so the runs of a family
+are also executed the way a user session does it -- the same detector / pipeline objects (and, in a third of
+the cases, the same ``Exposure`` object whose ``readout.start_time`` / ``times`` / ``non_destructive`` are
+re-assigned) serve several consecutive exposures, among them exposures that keep the readout times of the
+previous one and only move the start time.  The non-destructive reference (single readout) is always taken
+on new objects.  A fifth of the cases drive the same families through the older public entry point
+``pyxel.exposure_mode`` (Dataset result) while it exists.
+
 The "oracle" is only the exact (rational) duration of each frame computed from the float times that
 were handed to pyxel; nothing of pyxel is imported by it.
 """
@@ -33,7 +41,10 @@ RULE = ("random pipelines over {illumination uniform/rectangular/elliptic, load_
         "+ simple_measurement + simple_adc, random levels / time scales / files / geometries 1x1..8x8, detectors "
         "ccd/cmos/mkid/apd; per case one non-destructive family (single readout + 3-4 partitions into 1..12 readouts) "
         "and one destructive family (base schedule + 2 re-scheduled runs); cut points even / uniform / log-uniform / as close to "
-        "each other and to the ends as 1e-7 of the label size; non-trivial = collected charge non-zero and "
+        "each other and to the ends as 1e-7 of the label size; every family also re-runs its last schedule with only the "
+        "start time moved; object histories: new objects per run / one detector+pipeline for the family / for the whole "
+        "case (both modes alternate on it) / one Exposure object re-assigned through its readout setters; entry point "
+        "pyxel.run_mode (4 of 5 cases) or pyxel.exposure_mode; non-trivial = collected charge non-zero and "
         "at least one schedule with >=2 readouts; distinct = distinct (pipeline, geometry, interval) signatures")
 ASSUMPTIONS = [
     "dark_current is made deterministic by its own arguments (temporal_noise=False, spatial_noise_factor=None); no seed is needed",
@@ -43,6 +54,10 @@ ASSUMPTIONS = [
     "checked across the base run and its re-scheduled runs, with exact rational durations of the float times given to pyxel",
     "tolerance of a destructive frame is widened by 16*eps*max(|t|,|start|)/dt so that any reasonable way of computing "
     "the steps (differences of neighbours or of offsets from the start) is accepted for extremely short frames",
+    "a detector / pipeline / Exposure object may be used for any number of consecutive exposures: the charge of a run "
+    "may not depend on the runs made before on the same objects (the statement names start and end time as the only inputs)",
+    "pyxel.exposure_mode is public (deprecated): it is driven while it exists, its absence is counted, never alarmed; its "
+    "violations carry the suffix ':via-exposure_mode' in their mechanism",
     "only the 'pixel' bucket is compared; signal/image (quantisation) are downstream and not part of the statement",
     "neighbouring readout times (and the start) are kept >= 1e-7 x (size of the labels start_time + time) apart, because "
     "closer times can make the assembly of the result fail (xarray MergeError on colliding time labels, recorded under "
@@ -50,7 +65,10 @@ ASSUMPTIONS = [
 ]
 REQUIRED_COUNTERS = ["runs", "nd_families", "nd_partitions_compared", "nd_nonzero_families", "nd_multi_readout_partitions",
                      "nd_close_cut_partitions", "destr_families", "destr_frames_compared", "destr_rescheduled_runs",
-                     "destr_nonzero_families", "families_start_positive", "families_start_negative", "families_start_zero"]
+                     "destr_nonzero_families", "families_start_positive", "families_start_negative", "families_start_zero",
+                     "nd_moved_start_compared", "destr_move_start_runs", "session_reused_detector_runs",
+                     "session_same_times_new_start_runs", "session_exposure_reassigned_runs",
+                     "session_mode_toggled_runs"]
 TIMEOUT = {"quick": 900, "thorough": 7200}
 LEVEL_TEXT = ("Exploration by runtime monitoring: every generated pipeline of deterministic flux-integrating models is "
               "executed by the real exposure loop under several readout schedules of the same interval (non-destructive) "
@@ -341,21 +359,111 @@ def durations(start, times):
 
 
 # ------------------------------------------------------------------ execution
-def execute(case, start, times, non_destructive):
+SHARINGS = ["fresh", "family", "case", "family_exposure", "case_exposure"]
+
+
+class Session:
+    """How consecutive exposures share their objects, as in a user session.
+
+    sharing: 'fresh'            new detector / pipeline / Exposure for every run;
+             'family' | 'case'  one detector and one pipeline object for all runs of the family / of the case
+                                (in a 'case' session the non-destructive and the destructive runs alternate on it);
+             '*_exposure'       in addition one Exposure object, re-assigned through the public setters of its readout.
+    entry:   'run_mode' (pyxel.run_mode) or 'exposure_mode' (pyxel.exposure_mode, the older public entry point).
+    """
+
+    def __init__(self, rec, case, sharing, entry):
+        self.rec, self.case, self.sharing, self.entry = rec, case, sharing, entry
+        self.detector = self.pipeline = self.mode = None
+        self.previous = None          # (start, times, non_destructive) of the last run on the shared detector
+
+    @property
+    def suffix(self):
+        return ":via-exposure_mode" if self.entry == "exposure_mode" else ""
+
+    def describe(self):
+        return {"sharing": self.sharing, "entry": self.entry}
+
+    def new_family(self):
+        if self.sharing.startswith("family"):
+            self.detector = self.pipeline = self.mode = None
+            self.previous = None
+
+    def objects(self, start, times, non_destructive):
+        from pyxel.exposure import Exposure, Readout
+
+        rec = self.rec
+        if self.sharing == "fresh" or self.detector is None:
+            self.detector = build.make_detector(self.case["detector"])
+            self.pipeline = build.make_pipeline(self.case["pipeline"])
+            self.mode = None
+            self.previous = None
+        else:
+            rec.count("session_reused_detector_runs")
+            p_start, p_times, p_nd = self.previous
+            if p_times == list(times) and p_nd == non_destructive and p_start != start:
+                rec.count("session_same_times_new_start_runs")
+            if p_nd != non_destructive:
+                rec.count("session_mode_toggled_runs")
+        if self.mode is not None and self.sharing.endswith("_exposure"):
+            readout = self.mode.readout
+            try:
+                # both setters validate against the other attribute: take the order whose intermediate state is legal
+                if start < float(readout.times[0]):
+                    readout.start_time = start
+                    readout.times = list(times)
+                else:
+                    readout.times = list(times)
+                    readout.start_time = start
+                readout.non_destructive = non_destructive
+                rec.count("session_exposure_reassigned_runs")
+            except (AttributeError, ValueError, TypeError) as exc:
+                rec.count("refused_readout_setter")
+                rec.observe("refusals", f"readout setter: {type(exc).__name__}")
+                self.mode = None
+        else:
+            self.mode = None
+        if self.mode is None:
+            self.mode = Exposure(readout=Readout(times=list(times), start_time=start, non_destructive=non_destructive))
+        self.previous = (start, list(times), non_destructive)
+        return self.mode, self.detector, self.pipeline
+
+
+def gen_session(rec, rng, case, index, shard):
+    sharing = SHARINGS[(index + shard + rng.randint(0, 1)) % len(SHARINGS)] if rng.random() < 0.8 else rng.choice(SHARINGS)
+    entry = "exposure_mode" if rng.random() < 0.2 else "run_mode"
+    return Session(rec, case, sharing, entry)
+
+
+def execute(case, start, times, non_destructive, session=None):
     """One real exposure; returns the pixel bucket as (n_readouts, rows, cols) float64."""
     import pyxel
     from pyxel.exposure import Exposure, Readout
 
-    detector = build.make_detector(case["detector"])
-    pipeline = build.make_pipeline(case["pipeline"])
-    mode = Exposure(readout=Readout(times=list(times), start_time=start, non_destructive=non_destructive))
-    tree = pyxel.run_mode(mode=mode, detector=detector, pipeline=pipeline)
+    legacy = None
+    if session is None:
+        detector = build.make_detector(case["detector"])
+        pipeline = build.make_pipeline(case["pipeline"])
+        mode = Exposure(readout=Readout(times=list(times), start_time=start, non_destructive=non_destructive))
+    else:
+        mode, detector, pipeline = session.objects(start, times, non_destructive)
+        if session.entry == "exposure_mode":
+            legacy = getattr(pyxel, "exposure_mode", None)
+            if legacy is None:
+                session.rec.count("legacy_entry_point_absent")
+                session.entry = "run_mode"
+    if legacy is not None:
+        tree = legacy(exposure=mode, detector=detector, pipeline=pipeline)
+        session.rec.count("legacy_runs")
+    else:
+        tree = pyxel.run_mode(mode=mode, detector=detector, pipeline=pipeline)
     try:
         var = tree["pixel"]
     except KeyError:
         var = tree["/bucket/pixel"]
-    if "time" in var.dims:
-        var = var.transpose("time", "y", "x")
+    time_dims = [d for d in var.dims if d not in ("y", "x")]
+    if len(time_dims) == 1:
+        var = var.transpose(time_dims[0], "y", "x")
         values = np.asarray(var.values, dtype=float)
     else:
         values = np.asarray(var.values, dtype=float)[None, ...]
@@ -382,11 +490,14 @@ def describe_diff(a, b):
     return f"max rel. difference {float(rel[pos]):.3e} at pixel {tuple(int(p) for p in pos)}: {a[pos]!r} vs {b[pos]!r}"
 
 
-def run_or_refuse(rec, case, public, index, relation, start, times, non_destructive, first):
-    """Executes one schedule.  Returns the pixel cube or None (refusal counted / failure alarmed)."""
+def run_or_refuse(rec, case, public, index, relation, start, times, non_destructive, first, session=None):
+    """Executes one schedule (on new objects, or the way the session shares them).  Returns the pixel cube or None
+    (refusal counted / failure alarmed)."""
     try:
-        out = execute(case, start, times, non_destructive)
+        out = execute(case, start, times, non_destructive, session)
         rec.count("runs")
+        if session is not None:
+            rec.observe("entry_points", session.entry)
         return out
     except Exception as exc:  # noqa: BLE001
         if type(exc).__name__ == "MergeError" or labels_collide(start, times):
@@ -399,14 +510,28 @@ def run_or_refuse(rec, case, public, index, relation, start, times, non_destruct
             return None
         import traceback
         what = "baseline" if first else "schedule-variant"
-        alarm(rec, f"C17:{relation}:run-failed:{what}",
+        alarm(rec, f"C17:{relation}:run-failed:{what}" + (session.suffix if session else ""),
               f"{type(exc).__name__}: {exc} :: start={start!r} times={times!r} :: {traceback.format_exc()[-600:]}",
-              dict(public, start=start, times=times, non_destructive=non_destructive), index)
+              dict(public, start=start, times=times, non_destructive=non_destructive,
+                   session=session.describe() if session else None), index)
         return None
 
 
-def check_non_destructive(rec, rng, case, public, index, start, end):
-    """Every partition of [start, end] against the single-readout run."""
+def gen_moved_start(rng, start, times):
+    """Another start time for the same readout times: later (inside the first interval) or earlier."""
+    first = times[0]
+    if rng.random() < 0.5:
+        new = start + (first - start) * rng.uniform(0.05, 0.95)
+    else:
+        new = start - (times[-1] - start) * rng.choice([0.01, 0.25, 1.0, 3.0]) * rng.uniform(0.5, 1.5)
+    if rng.random() < 0.25:
+        new = round(new, 3)          # 'typed in' values
+    return float(new)
+
+
+def check_non_destructive(rec, rng, case, public, index, start, end, session):
+    """Every partition of [start, end] against the single-readout run (always made on new objects)."""
+    public = dict(public, session=session.describe())
     ref = run_or_refuse(rec, case, public, index, "non-destructive", start, [end], True, True)
     if ref is None:
         return None
@@ -423,6 +548,7 @@ def check_non_destructive(rec, rng, case, public, index, start, end):
     styles = ["even", "uniform", "uneven", "close_pairs", "close_ends"]
     n_part = 4 if rng.random() < 0.5 else 3
     multi = False
+    last_times = None
     for p in range(n_part):
         style = styles[(index + p + rng.randint(0, 1)) % len(styles)]
         n = rng.choice([2, 3, 4, 5, 6, 8, 10, 12, 12]) if p else rng.choice([1, 2, 3, 7, 12])
@@ -430,9 +556,10 @@ def check_non_destructive(rec, rng, case, public, index, start, end):
         if not valid_schedule(start, times):
             rec.count("schedules_skipped_invalid")
             continue
-        got = run_or_refuse(rec, case, public, index, "non-destructive", start, times, True, False)
+        got = run_or_refuse(rec, case, public, index, "non-destructive", start, times, True, False, session)
         if got is None:
             continue
+        last_times = times
         rec.count("nd_partitions_compared")
         rec.observe("nd_readout_counts", len(times))
         rec.observe("nd_styles", style)
@@ -443,20 +570,43 @@ def check_non_destructive(rec, rng, case, public, index, start, end):
             rec.count("nd_close_cut_partitions")
         final = got[-1]
         if not np.allclose(final, single, rtol=RTOL, atol=RTOL * peak, equal_nan=False):
-            alarm(rec, "C17:non-destructive:final-charge-depends-on-partition",
+            alarm(rec, "C17:non-destructive:final-charge-depends-on-partition" + session.suffix,
                   f"[{start!r}, {end!r}] read out {len(times)}x vs once: {describe_diff(final, single)}; "
-                  f"models={case['kinds']}+{case['conversion']}",
+                  f"models={case['kinds']}+{case['conversion']}; session={session.describe()}",
                   dict(public, start=start, times=times, end=end), index)
+    # the same readout times with another start time: again only the start and the end may matter
+    if last_times is not None:
+        start2 = gen_moved_start(rng, start, last_times)
+        if not valid_schedule(start2, last_times) or not valid_schedule(start2, [end]):
+            rec.count("schedules_skipped_invalid")
+            return {"nonzero": nonzero, "multi": multi}
+        ref2 = run_or_refuse(rec, case, public, index, "non-destructive:moved-start", start2, [end], True, True)
+        if ref2 is None or not np.all(np.isfinite(ref2[-1])):
+            return {"nonzero": nonzero, "multi": multi}
+        got2 = run_or_refuse(rec, case, public, index, "non-destructive:moved-start", start2, last_times, True, False,
+                             session)
+        if got2 is None:
+            return {"nonzero": nonzero, "multi": multi}
+        rec.count("nd_moved_start_compared")
+        rec.observe("nd_moved_start", "later" if start2 > start else "earlier")
+        peak2 = float(np.max(np.abs(ref2[-1])))
+        if not np.allclose(got2[-1], ref2[-1], rtol=RTOL, atol=RTOL * peak2, equal_nan=False):
+            alarm(rec, "C17:non-destructive:moved-start:final-charge-depends-on-partition" + session.suffix,
+                  f"[{start2!r}, {end!r}] (start moved from {start!r}, readout times kept) read out {len(last_times)}x "
+                  f"vs once: {describe_diff(got2[-1], ref2[-1])}; models={case['kinds']}+{case['conversion']}; "
+                  f"session={session.describe()}",
+                  dict(public, start=start2, times=last_times, end=end, previous_start=start), index)
     return {"nonzero": nonzero, "multi": multi}
 
 
-def check_destructive(rec, rng, case, public, index, start, end):
+def check_destructive(rec, rng, case, public, index, start, end, session):
     """pixel_i / dt_i is one rate for all frames of the base run and of its re-scheduled runs."""
+    public = dict(public, session=session.describe())
     times = gen_destructive_base(rng, start, end)
     if not valid_schedule(start, times):
         rec.count("schedules_skipped_invalid")
         return None
-    base = run_or_refuse(rec, case, public, index, "destructive", start, times, False, True)
+    base = run_or_refuse(rec, case, public, index, "destructive", start, times, False, True, session)
     if base is None:
         return None
     if not np.all(np.isfinite(base)):
@@ -483,27 +633,36 @@ def check_destructive(rec, rng, case, public, index, start, end):
                 alarm(rec, mechanism,
                       f"{label}: frame {i} of {len(ts)} lasts {dt!r} s but its charge is not (reference rate x duration): "
                       f"{describe_diff(frame, want)}; reference = frame {longest} ({dts[longest]!r} s) of start={start!r} "
-                      f"times={times!r}; models={case['kinds']}+{case['conversion']}",
+                      f"times={times!r}; models={case['kinds']}+{case['conversion']}; session={session.describe()}",
                       dict(public, start=s, times=ts, base_start=start, base_times=times), index)
                 return
 
-    compare(base, start, times, "C17:destructive:frame-charge-not-proportional-to-its-duration", "base schedule")
+    compare(base, start, times, "C17:destructive:frame-charge-not-proportional-to-its-duration" + session.suffix,
+            "base schedule")
     rec.observe("destr_frame_counts", len(times))
-    variants = ["scale_all", "scale_steps", "shift"]
+    variants = ["scale_all", "scale_steps", "shift", "move_start"]
     rng.shuffle(variants)
-    for variant in variants[:2]:
+    last_s, last_t = start, times
+    for variant in variants[:rng.choice([2, 3])]:
         k = rng.choice(K_FACTORS)
-        s2, t2 = reschedule(rng, start, times, variant, k)
+        if variant == "move_start":     # the readout times of the run made just before, only the start differs
+            s2, t2 = gen_moved_start(rng, last_s, last_t), list(last_t)
+        else:
+            s2, t2 = reschedule(rng, start, times, variant, k)
         if not valid_schedule(s2, t2):
             rec.count("schedules_skipped_invalid")
             continue
-        got = run_or_refuse(rec, case, public, index, "destructive", s2, t2, False, False)
+        got = run_or_refuse(rec, case, public, index, "destructive", s2, t2, False, False, session)
         if got is None:
             continue
+        last_s, last_t = s2, t2
         rec.count("destr_rescheduled_runs")
-        rec.observe("destr_variants", variant if variant == "shift" else f"{variant}:k={k}")
-        compare(got, s2, t2, f"C17:destructive:rescheduled:{variant}:charge-does-not-follow-the-intervals",
-                f"{variant} k={k}" if variant != "shift" else "shifted schedule")
+        if variant == "move_start":
+            rec.count("destr_move_start_runs")
+        rec.observe("destr_variants", variant if variant in ("shift", "move_start") else f"{variant}:k={k}")
+        compare(got, s2, t2,
+                f"C17:destructive:rescheduled:{variant}:charge-does-not-follow-the-intervals" + session.suffix,
+                f"{variant} k={k}" if variant not in ("shift", "move_start") else f"{variant} schedule")
     return {"nonzero": nonzero, "multi": len(times) >= 2}
 
 
@@ -515,9 +674,12 @@ def run_shard(spec, rec):
         case = gen_pipeline(rng, rec.tmp, i, spec["shard"])
         start, end, start_kind = gen_interval(rng, i + spec["shard"])
         public = {k: case[k] for k in ("kinds", "conversion", "detector", "pipeline", "expected_refusal")}
-        nd = check_non_destructive(rec, rng, case, public, i, start, end)
+        session = gen_session(rec, rng, case, i, spec["shard"])
+        rec.observe("session_sharings", session.sharing)
+        nd = check_non_destructive(rec, rng, case, public, i, start, end, session)
+        session.new_family()
         start_d, end_d, start_kind_d = gen_interval(rng, i + spec["shard"] + 1)
-        de = check_destructive(rec, rng, case, public, i, start_d, end_d)
+        de = check_destructive(rec, rng, case, public, i, start_d, end_d, session)
         geo = case["detector"]["geometry"]
         sig = (sorted(case["kinds"]), case["conversion"], geo["row"], geo["col"], start, end, start_d, end_d)
         ran = [r for r in (nd, de) if r]
@@ -538,6 +700,7 @@ def run_shard(spec, rec):
             rec.observe("detectors", case["detector"]["kind"])
             rec.observe("geometries", f"{geo['row']}x{geo['col']}")
         rec.case(sig, nontrivial, sample={"kinds": case["kinds"], "conversion": case["conversion"],
+                                          "session": session.describe(),
                                           "geometry": [geo["row"], geo["col"]], "nd_interval": [start, end],
                                           "destructive_interval": [start_d, end_d], "pipeline": case["pipeline"]})
 
@@ -550,6 +713,11 @@ def finalize(counters, sets, tier):
     missing = [m for m in CONVERSIONS if m not in sets.get("models_nonzero", [])]
     if missing:
         out.append(f"photo-conversion models never observed with non-zero charge: {missing}")
+    missing = [m for m in SHARINGS if m not in sets.get("session_sharings", [])]
+    if missing:
+        out.append(f"object histories never driven: {missing}")
+    if not counters.get("legacy_runs") and not counters.get("legacy_entry_point_absent"):
+        out.append("pyxel.exposure_mode neither driven nor found absent")
     if len(sets.get("nd_readout_counts", [])) < 6:
         out.append("fewer than 6 different readout counts among the non-destructive partitions")
     return out
@@ -558,4 +726,6 @@ def finalize(counters, sets, tier):
 def coverage_extra(counters, sets, tier):
     return {"exhaustive": False,
             "models_alone_nonzero": sorted(sets.get("solo_nonzero", [])),
+            "object_histories": sorted(sets.get("session_sharings", [])),
+            "entry_points": sorted(sets.get("entry_points", [])),
             "open_findings": sorted(OPEN_FINDINGS)}
